@@ -193,6 +193,23 @@ def add_order_hints(scenario, gores):
     return sc
 
 
+def add_uuid_hints(sc, gores):
+    """KnowledgeLibrary.RemoveRuleEntry renames the entry to Deleted_<random uuid>: hand the observed uuid to the model"""
+    seen = set()
+    for op, r in zip(sc["ops"], gores.get("res", [])):
+        rules = r.get("rules") if isinstance(r, dict) else None
+        if op.get("op") == "remove" and not op.get("inst") and not op.get("viaKb") and rules:
+            for key, name, sal, desc, deleted, snap in rules:
+                if deleted and key.startswith("Deleted_") and (op.get("lib"), op.get("kb"), key) not in seen:
+                    # the entry that was not tomb-stoned before this op
+                    op["uuid"] = key[len("Deleted_"):]
+        if rules and op.get("op") in ("remove", "build", "info", "load") and not op.get("inst"):
+            for key, name, sal, desc, deleted, snap in rules:
+                if deleted:
+                    seen.add((op.get("lib"), op.get("kb"), key))
+    return sc
+
+
 def fill_orders(sc, keys_by_inst):
     """replace None placeholders (an inactive entry was visited here) by keys of entries known to be inactive:
     removed ones, and those absent from an earlier pass of the same call (retracted)"""
@@ -351,8 +368,18 @@ def canon_result(op, r, go):
         out["out"] = o
         out["rules"] = canon_fetch_rules(r.get("rules", []))
         out["store"] = canon_store(r.get("store", []))
-    elif kind == "remove":
+    elif kind == "concurrent":
+        out["results"] = [{"out": x.get("out"), "store": canon_store(x.get("store", []))} if "out" in x else x for x in (r.get("results") or [])]
+    elif kind in ("remove", "info"):
         out["rules"] = r.get("rules")
+    elif kind == "store":
+        out["ok"] = r.get("ok")
+    elif kind == "load":
+        out["ok"] = r.get("ok")
+        if r.get("ok"):
+            out["rules"] = r.get("rules")
+            out["name"] = r.get("name")
+            out["version"] = r.get("version")
     else:
         out = r
     return out
@@ -457,6 +484,7 @@ def correspond(scenarios, jobs=8):
     for sc, g in zip(scenarios, go):
         h = add_order_hints(sc, g)
         h = fill_orders(h, instance_keys(sc, g))
+        h = add_uuid_hints(h, g)
         hinted.append(h)
     lean = run_lean(hinted, jobs)
     out = []
